@@ -6,6 +6,7 @@ testbench or not), and the resulting SimInput is projected.  TLC (Trace_Sim over
 present exactly once in the package; analyses / controls / options complete and in order; names, expressions, paths, sweep kinds kept;
 every number is the double nearest the exact decimal; analysis names pairwise distinct; a bad testbench is rejected.
 """
+import copy
 import json
 import math
 import random
@@ -33,7 +34,9 @@ F0 = F(0.0)
 # numeric spellings: (form, text[, prefix exponent]); the exact value "as written" is computed below
 NUMS = [("int", "5"), ("int", "0"), ("int", "3"), ("float", "0.1"), ("float", "2.5"), ("float", "1e-09"), ("float", "1e22"), ("str", "1e-9"), ("str", "0.001"),
         ("str", "12.5"), ("decimal", "2.50"), ("decimal", "1E+3"), ("prefixed", "11", -12), ("prefixed", "1.5", -9), ("prefixed", "999", -24),
-        ("prefixed", "0.3", 3), ("prefixed", "123456789012345678", -6), ("prefixed", "1", 9)]
+        ("prefixed", "0.3", 3), ("prefixed", "123456789012345678", -6), ("prefixed", "1", 9),
+        # whole numbers at the smallest prefix, and beyond 2**53 at a sub-unit prefix: where a short-cut through float arithmetic rounds twice
+        ("prefixed", "1", -24), ("prefixed", "7", -24), ("prefixed", "45", -24), ("prefixed", "9007199254740995", -15), ("prefixed", "5", 24)]
 
 
 def exact(num):
@@ -426,11 +429,14 @@ def run_group(args):
         for S, si in zip(group["sims"], outs):
             out = proj_siminput(si)
             out["top"] = out["top"].split(".")[-1]
-            events.append({"sim": strip(S, group), "raised": False, "out": out, "exc": ""})
+            S2 = strip(S, group)
+            if group.get("name_clash"):
+                S2["tb_ok"] = False        # two different testbench modules of one name: a list the exporter has to refuse
+            events.append({"sim": S2, "raised": False, "out": out, "exc": ""})
     except Exception as ex:
         exc = f"{type(ex).__name__}: {str(ex).strip().splitlines()[-1][:200] if str(ex).strip() else ''}"
         # the whole group was refused: every member is judged by whether the group contains a bad testbench
-        anybad = any(not S["tb_ok"] for S in group["sims"])
+        anybad = any(not S["tb_ok"] for S in group["sims"]) or bool(group.get("name_clash"))
         for S in group["sims"]:
             S2 = strip(S, group)
             S2["tb_ok"] = not anybad
@@ -529,6 +535,27 @@ def gen_groups(tier, seed):
         mc = attr("monte", name="mymc", hasname=True, n=4 + j, inner=[dict(ref), attr("op", name="innerop", hasname=True)])
         S = {"tbname": f"tbo{j}", "tb_ok": True, "tbkind": "ok", "attrs": [par, tr, dc, sw, mc], "style": ["class", "proc", "methods"][j % 3]}
         groups.append({"sims": [S], "share_tb": False, "as_list": False})
+    # systematic: analyses nested as OBJECTS two and three deep (a sweep inside a Monte-Carlo inside a sweep), each also a top-level attribute with a name
+    for j in range(9):
+        tr = attr("tran", name="mytran", hasname=True)
+        tr["x1"], tr["py"] = dec(exact(NUMS[j % len(NUMS)])), {"x1": NUMS[j % len(NUMS)]}
+        rtr = dict(tr)
+        rtr["same_object_as"] = 0
+        sw = attr("sweep", name="mysweep", hasname=True, var="vdd", sweep=rand_sweep(rnd), inner=[rtr])
+        rsw = copy.deepcopy(sw)
+        rsw["same_object_as"] = 1
+        mc = attr("monte", name="mymc", hasname=True, n=2 + j, inner=[rsw, attr("op", name="innerop", hasname=True)])
+        rmc = copy.deepcopy(mc)
+        rmc["same_object_as"] = 2
+        outer = attr("sweep", name="outer", hasname=True, var="temp", sweep=rand_sweep(rnd), inner=[rmc])
+        S = {"tbname": f"tbn{j}", "tb_ok": True, "tbkind": "ok", "attrs": [tr, sw, mc, outer], "style": ["class", "proc", "methods"][j % 3]}
+        groups.append({"sims": [S], "share_tb": False, "as_list": False})
+    # systematic: a list of Sims whose testbenches are DIFFERENT modules of one name: they cannot both be in the package under that name
+    for j in range(4):
+        sims = [rand_sim(rnd, 1, 9000 + 2 * j), rand_sim(rnd, 1, 9001 + 2 * j)]
+        for s_ in sims:
+            s_["tbname"], s_["tbkind"], s_["tb_ok"], s_["style"] = f"tbclash{j}", "ok", True, "proc"
+        groups.append({"sims": sims, "share_tb": False, "as_list": True, "name_clash": True})
     return groups
 
 
